@@ -15,4 +15,6 @@ for p in "$@"; do
   echo "== $p rc=$rc"; echo "$out" | grep -E "^(VIOLATION|KNOWN-FINDING|OK|ERROR)" | cut -c1-260 | head -4
 done
 cd /repo && git reset -q --hard HEAD && git clean -fdq >/dev/null 2>&1
+# the evidence written while the change was applied is not evidence about /repo: restore the committed files
+git -C /verif checkout -- evidence 2>/dev/null
 git status --short | head -3
